@@ -5977,8 +5977,10 @@ class FlowIRConcrete(object):
         return ret
 
     def invalidate_cache_for_component(self, comp_id):
+        # VV: Component names may contain characters that are special in regular expressions (e.g. `a+b`),
+        # escape them so that the pattern matches the literal cache label
         self._cache.invalidate_reg_expression(r'component:.*:stage%s:%s' % (
-            comp_id[0], comp_id[1]))
+            comp_id[0], re.escape(str(comp_id[1]))))
 
     def update_component(self, comp_id, new_flowir):
         # type: (FlowIRComponentId, DictFlowIRComponent) -> None
@@ -6008,7 +6010,7 @@ class FlowIRConcrete(object):
         if return_copy:
             return deep_copy(component)
 
-        self._cache.invalidate_reg_expression(r"component:.*:stage%s:%s" % (comp_id[0], comp_id[1]))
+        self.invalidate_cache_for_component(comp_id)
         return component
 
     def delete_component(self, comp_id, ignore_errors=False):
@@ -6033,9 +6035,7 @@ class FlowIRConcrete(object):
             except KeyError:
                 pass
 
-            self._cache.invalidate_reg_expression(r'component:.*:stage%s:%s' % (
-                comp['stage'], comp['name']
-            ))
+            self.invalidate_cache_for_component((comp['stage'], comp['name']))
         except:
             if ignore_errors is False:
                 raise
